@@ -754,6 +754,11 @@ class SMat:
         return self.m[i // n][i % n]
 
     def __setitem__(self, idx, val):
+        if not isinstance(idx, tuple):
+            if self.cols != 1:
+                raise Unsupported("flat item assignment on a matrix")
+            self.m[int(idx)][0] = _coerce_strict(val)
+            return
         i, j = idx
         if isinstance(i, slice) and not isinstance(j, slice):
             col = val.m if isinstance(val, SMat) else [[v] for v in val]
@@ -957,8 +962,32 @@ def _np_array(x, dtype=None):
     return x if isinstance(x, SMat) else SMat(x)
 
 
-NUMPY = _NS("numpy", sqrt=sqrt, pi=Poly.var("pi"), cos=cos, sin=sin, exp=exp, kron=kron, eye=eye,
-            zeros=zeros, array=_np_array, ndarray=SMat)
+def _np_zeros(shape, dtype=None):
+    if isinstance(shape, tuple):
+        return zeros(*shape)
+    return zeros(int(shape), 1)      # numpy: zeros(n) is a vector
+
+
+def _np_exp(x):
+    return x.applyfunc(exp) if isinstance(x, SMat) else exp(x)
+
+
+def _np_multiply(a, b):
+    a, b = _np_array(a), _np_array(b)
+    if a.shape != b.shape:
+        raise Unsupported("np.multiply of different shapes")
+    return SMat(data=[[x * y for x, y in zip(ra, rb)] for ra, rb in zip(a.m, b.m)])
+
+
+def _np_log2(x):
+    x = int(x)
+    if x <= 0 or x & (x - 1):
+        return math.log2(x)
+    return x.bit_length() - 1
+
+
+NUMPY = _NS("numpy", sqrt=sqrt, pi=Poly.var("pi"), cos=cos, sin=sin, exp=_np_exp, kron=kron, eye=eye,
+            zeros=_np_zeros, array=_np_array, asarray=_np_array, ndarray=SMat, multiply=_np_multiply, log2=_np_log2)
 
 
 # ---------------------------------------------------------------------------------------------
